@@ -661,6 +661,69 @@ def _pass_through_and_patterns(chk, repo, cv):
                 chk.ob("REGEX-12", "%s recognises a text by matching all of it" % fn.qualname, ok, fn.where(c), detail="%s(%r)" % (call_attr(c), pat), construct=fn.ident,
                        text="partial pattern test in " + fn.name)
     chk.ob("REGEX-12", "pattern tests examined (%d)" % n_p, n_p >= 1, "mpf/core/utility_functions.py:1", nontrivial=False)
+    # a text recognised by one pattern and cut up by another: the cutter knows every character the recogniser lets through (a hex colour is
+    # recognised by [a-fA-F0-9]; the cutter [0-9a-f]{2} sees all of it only because the text was lower-cased first)
+    import re as _re
+
+    def _alphabet(pat):
+        out = set()
+
+        def rec(p_):
+            for op, av in p_:
+                nm = str(op)
+                if nm == "IN":
+                    for k, v in av:
+                        if str(k) == "RANGE":
+                            out.update(chr(i) for i in range(v[0], v[1] + 1))
+                        elif str(k) == "LITERAL":
+                            out.add(chr(v))
+                elif nm == "LITERAL":
+                    out.add(chr(av))
+                elif nm in ("MAX_REPEAT", "MIN_REPEAT"):
+                    rec(av[2])
+                elif nm == "SUBPATTERN":
+                    rec(av[3])
+                elif nm == "BRANCH":
+                    for b_ in av[1]:
+                        rec(b_)
+        rec(_re._parser.parse(pat))
+        return out
+    hexpat = None
+    for x in ast.walk(repo.mod(UF).tree):
+        if isinstance(x, ast.Assign) and src(x.targets[0]).endswith("hex_matcher") and isinstance(x.value, ast.Call) and x.value.args and \
+                isinstance(x.value.args[0], ast.Constant):
+            hexpat = x.value.args[0].value
+    chk.expect(hexpat is not None, "C12: Util.hex_matcher pattern not found")
+    n_cut = 0
+    for name, m in sorted(cv.methods.items()):
+        mc = None
+        for c in m.calls():
+            if not (call_attr(c) in ("split", "findall") and dotted(c.func.value) == "re" and len(c.args) >= 2 and isinstance(c.args[0], ast.Constant) and
+                    isinstance(c.args[1], ast.Name)):
+                continue
+            mc = mc or m.cfg()
+            node = [n_ for n_ in mc.nodes if n_.kind in ("stmt", "test") and any(y is c for y in n_.walk())]
+            if not node or hexpat is None:
+                continue
+            g = mc.guards_at(node[0].id)
+            subj = c.args[1].id
+            if g.get("Util.is_hex_string(%s)" % subj) is not True:
+                continue
+            n_cut += 1
+            defs = [x for x in walk_local(m.node) if isinstance(x, ast.Assign) and any(isinstance(t, ast.Name) and t.id == subj for t in x.targets)]
+            lowered = bool(defs) and all(isinstance(d.value, ast.Call) and call_attr(d.value) == "lower" for d in defs)
+            uppered = bool(defs) and all(isinstance(d.value, ast.Call) and call_attr(d.value) == "upper" for d in defs)
+            accepted = _alphabet(hexpat)
+            if lowered:
+                accepted = {ch.lower() for ch in accepted}
+            elif uppered:
+                accepted = {ch.upper() for ch in accepted}
+            cut = _alphabet(c.args[0].value)
+            miss = sorted(accepted - cut)
+            chk.ob("REGEX-12", "%s cuts a recognised hex text with a pattern that knows every character the recogniser accepts" % name, not miss, m.where(c),
+                   detail="accepted by the recogniser but unknown to %r: %s" % (c.args[0].value, "".join(miss)), construct=m.ident,
+                   text="hex cutter alphabet in " + name)
+    chk.ob("REGEX-12", "recogniser / cutter pairs examined (%d)" % n_cut, n_cut >= 1, CV + ":1", nontrivial=False)
     # dict|k:v : only a mapping (or nothing) is a dict: every path of _validate_dict that reaches the key/value loop for item_type "dict" has
     # tested isinstance(item, dict); a string or list is refused, not split into keys (that is the event_handler form)
     from sa.helpers import feasible_paths
@@ -822,6 +885,8 @@ def battery():
         M("keys named like templates are not validated", CV, "            if this_spec[k] == 'ignore' or k[0] == '_':\n                continue", "            if this_spec[k] == 'ignore' or k[0] == '_' or k.endswith('_events'):\n                continue", "DOM-24"),
         M("unknown keys of some sections are accepted", CV, "                if not isinstance(k, dict) and k not in spec and k[0] != '_':", "                if not isinstance(k, dict) and k not in spec and k[0] != '_' and len(spec) > 1:", "DOM-24"),
         M("fractional minutes truncated to whole seconds before scaling", UT, "            return int(float(time_string[:-1]) * 60 * 1000)", "            return int(float(time_string[:-1]) * 60) * 1000", "TABLE-3"),
+        M("kivy colour no longer lower-cased before the hex cutter", CV, "        color_string = str(item).lower()\n", "        color_string = str(item)\n", "REGEX-12"),
+        M("twin: kivy hex cutter knows both cases", CV, "re.split('([0-9a-f]{2})', color_string)", "re.split('([0-9a-fA-F]{2})', color_string)", None),
         M("hex recogniser accepts any text that starts with six hex digits", "mpf/core/utility_functions.py", "return Util.hex_matcher.fullmatch(str(string)) is not None", "return Util.hex_matcher.match(str(string)) is not None", "REGEX-12"),
         M("bool validator passes 1 / 0 through unconverted", CV, "        if isinstance(item, bool):\n            return item", "        if item in (True, False):\n            return item", "PASS-12"),
         M("dict setting split like an event list", CV, "            if not isinstance(item, dict):\n                raise self.validation_error(item, validation_failure_info, \"Item is not a dict.\", 12)", "            item = Util.event_config_to_dict(item)", "DICT-12"),
